@@ -323,6 +323,7 @@ Proof.
   destruct (negb (version_eqb _ _)); [reflexivity|].
   destruct (_ && negb (role_client_ok g)); [reflexivity|].
   destruct (_ && negb (role_server_ok g)); [reflexivity|].
+  unfold dispatch_send, not_allowed.
   destruct (k_type p =? T_CONNECT) eqn:E1.
   { apply RB_RC, send_connect_benign. eapply eqb_type_nonterminal; [exact E1|discriminate|discriminate]. }
   destruct (k_type p =? T_CONNACK) eqn:E2.
